@@ -21,7 +21,8 @@ RULE = ('The same generated scenario is executed three ways - core API (StreamFr
         'the request limit and credit is only renewed after limit elements arrived; the handler\'s observable reaches '
         'the wire within the credit received; a back-pressure factory\'s feedback subject received exactly the credited '
         'amounts in order; dispose sends one CANCEL and cancels the peer\'s source; the delegate\'s '
-        'request_fire_and_forget / on_metadata_push / on_setup were invoked with the sent values. Plus long sources: a '
+        'request_fire_and_forget / on_metadata_push / on_setup were invoked with the sent values, and a delegate that '
+        'raises from on_setup gets the connection refused with ERROR[REJECTED_SETUP] as a core handler does. Plus long sources: a '
         'back-pressure-aware handler observable of 1500 elements with credit 700..2^31-1 whose result is disposed after 1-6 '
         'elements or 2-8 ticks under prompt delivery must not be drained to its end (the CANCEL has to get a chance to '
         'stop it). Plus: a fire-and-forget whose delegate suspends 0-4 loop iterations, followed by a request-response (same '
@@ -51,6 +52,9 @@ def scenarios(draw):
         sc['rbp'] = draw(st.booleans())
         sc['rerr_at'] = draw(st.one_of(st.none(), st.none(), st.integers(0, max(0, sc['m']))))
         sc['resp_limit'] = draw(st.sampled_from([1, 2, MAXN]))
+    if model == 'setup':
+        # the delegate may refuse the connection by raising from on_setup (authentication): the peer has to be told
+        sc['reject'] = draw(st.booleans())
     if model == 'rr':
         sc['n'] = draw(st.sampled_from([0, 1]))
         sc['err_at'] = draw(st.sampled_from([None, None, 0]))
@@ -219,6 +223,8 @@ def build_rx(sc, version):
                 d, m = A.pl(payload)
                 world.ev('s', 'delegate', what='on_setup', data_encoding=bytes(data_encoding),
                          metadata_encoding=bytes(metadata_encoding), data=d, metadata=m)
+                if sc.get('reject'):
+                    raise A.AppError('setup refused by the delegate')
 
             async def on_metadata_push(self, metadata):
                 d, m = A.pl(metadata)
@@ -319,6 +325,8 @@ def run_variant(sc, variant):
     cfg = {'msg': sc['msg'], 'frag': [sc['frag'], sc['frag']], 'rbuf': [sc['rbuf'], sc['rbuf']],
            'setup_payload': list(el(0, A.TAG_REQ, 9, [4, 3])), 'data_encoding': b'application/x-c20',
            'metadata_encoding': b'message/x.c20'}
+    if sc.get('reject') and hk == 'core':
+        cfg['setup_raises'] = 'app'
     ops_tail = [['tick', 6], ['settle'], ['adv', 60], ['settle'], ['adv', 60], ['settle']]
     prog = {'cfg': cfg, 'inter': [], 'heal': False, '_handler_factory': {}, '_actions': {}}
     if hk != 'core':
@@ -528,6 +536,14 @@ def judge_variant(sc, variant):
         if len(setups) != 1 or (setups[0]['data_encoding'], setups[0]['metadata_encoding'], setups[0]['data'], setups[0]['metadata']) != \
                 (b'application/x-c20', b'message/x.c20', sd, sm):
             bad('delegate_on_setup_wrong', 'delegate:on_setup', n=len(setups))
+        rejections = [e for e in tr.world.wire.get('s', []) if e['f']['type'] == 'ERROR' and e['f']['sid'] == 0]
+        if sc.get('reject'):
+            # what a core handler raising from on_setup gets: one ERROR[REJECTED_SETUP] on stream 0
+            if len(rejections) != 1 or rejections[0]['f'].get('code') != 3:
+                bad('setup_rejection_lost', 'delegate:on_setup:rejection', n=len(rejections),
+                    code=rejections[0]['f'].get('code') if rejections else None)
+        elif rejections:
+            bad('setup_rejected_without_cause', 'delegate:on_setup:spurious_rejection', n=len(rejections))
         if model == 'fnf':
             calls = [e for e in delegate if e['what'] == 'request_fire_and_forget']
             if len(calls) != 1 or (calls[0]['data'], calls[0]['metadata']) != (d, m):
